@@ -1727,6 +1727,7 @@ def analyse(rep: Report) -> None:
     rep.rule('R16.12', 'loops that read until a sentinel end at the end of the input', floor=1)
     rep.rule('R16.13', 'parser loops driven by a 32-bit count from the input consume input that fails at its end', floor=3)
     rep.rule('R16.14', 'attributes read from an object built in the same handler function exist on every path', floor=3)
+    rep.rule('R16.15', 'the invariants that make the range assertions of generate_media_segment unreachable hold (rule of C06)', floor=1)
     idx = Index(rep.repo)
     cg = CallGraph(idx)
     validated_ok = r16_8(rep, idx)
@@ -1742,6 +1743,14 @@ def analyse(rep: Report) -> None:
     r16_12(rep)
     r16_13(rep, idx)
     r16_14(rep, idx)
+    from ..core import lift
+    from . import c06 as _c06
+
+    def _run(sub):
+        sub.rule('R06.3', 'numbers outside first..last are refused on every path', floor=0)
+        _c06.r06_3(sub)
+    lift(rep, 'R16.15', 'C06', _run, ('R06.3',), 'dashlive/mpeg/dash/representation.py::Representation.calculate_first_and_last_segment_number',
+         'first..last is the stored range, numbers outside it raise ValueError (-> 404)')
     rep.assumptions = [
         'call edges are the resolved ones (CHA, typed locals, proxies); template calls are added '
         'for the three timeline generators; unresolved dynamic calls propagate nothing',
